@@ -1716,6 +1716,9 @@ pub fn fut_matrix_scenarios(ns: &[u64]) -> Vec<Scn> {
             ("ST3", vec![opd(AddStream, 1, 5)], vec![op(StreamAll, 5)]),
             ("STU", vec![opd(AddStream, 1, 6), op(IntoSingle, 6)], vec![op(StreamAll, 6)]),
             ("DT", vec![opd(CloneH, 1, 4)], vec![op(TryRecv, 4), op(DropH, 4)]),
+            // the direct blocking recv() on a second handle of the main stream
+            // (a bug hunt found a lost wake-up exactly there)
+            ("RC", vec![opd(CloneH, 1, 4)], vec![op(Recv, 4), op(DropH, 4)]),
             ("DR", vec![opd(CloneH, 1, 4)], vec![op(DropH, 4)]),
             ("DL", vec![opd(AddStream, 1, 8)], vec![op(DropH, 8)]),
             ("UL", vec![opd(AddStream, 1, 8)], vec![op(Unsub, 8)]),
